@@ -238,6 +238,31 @@ example : phaseSum (fun a => (a.p8 : ℝ)) [⟨.GLOBALPHASE, [], [], .pi8 2⟩, 
   rw [if_pos (by decide), if_neg (by decide), if_pos (by decide)]
   norm_num [Ang.pi8]
 
+/-- **load_ignores_history.**  The contract behind the live-object histories of the correspondence: what a load produces is
+a function of the processor's parameters, the gate list handed in AT THAT MOMENT and nothing else — neither the value the
+compiler object carried (`phase0`: a re-used `compiler=` object, whatever an earlier `compile` left in `global_phase`) nor the
+phase the processor reported before (`old`) enters the instruction list, the verdict or the reported phase.  (`compile`
+starts from 0 and `load_circuit` hands the compiler's value back: the regenerated flags `compileResetsPhase`,
+`handsBackPhase`.)  Editing the circuit object between two loads therefore can only matter through the gate list read by
+the second load. -/
+theorem load_ignores_history {α : Type} [Arith α] (pi : α) (ev : Ang → α) (circular : Bool) (N : ℕ) (P : Params α)
+    (phase0 phase0' old old' : α) (gs : List Gate) :
+    compile pi ev N P phase0 gs = compile pi ev N P phase0' gs ∧
+    load pi ev circular N P phase0 gs = load pi ev circular N P phase0' gs ∧
+    ∀ φ : α, reportedPhase old φ = reportedPhase old' φ := by
+  have hc : compile pi ev N P phase0 gs = compile pi ev N P phase0' gs := by
+    unfold compile
+    rw [if_pos (show compileResetsPhase = true from rfl), if_pos (show compileResetsPhase = true from rfl)]
+  refine ⟨hc, ?_, ?_⟩
+  · unfold load; rw [hc]
+  · intro φ
+    unfold reportedPhase
+    rw [if_pos (show handsBackPhase = true from rfl), if_pos (show handsBackPhase = true from rfl)]
+
+example : compile (1 : Rat) (evQr fun _ => 0) 1 ⟨[1/4], [1], []⟩ 7 [⟨.GLOBALPHASE, [], [], .pi8 2⟩] =
+    compile (1 : Rat) (evQr fun _ => 0) 1 ⟨[1/4], [1], []⟩ (-3) [⟨.GLOBALPHASE, [], [], .pi8 2⟩] :=
+  (load_ignores_history (1 : Rat) _ false 1 _ 7 (-3) 0 0 _).1
+
 /-! ## end to end -/
 
 /-- **end_to_end_partial.**  For every chain length `N`, both topologies, every valuation `ρ` of the angles, every
